@@ -721,6 +721,15 @@ def r5_tracers(ctx, sym):
                 return pt
             me = symexec.self_obj(tmod, str(cls_name), filename='answer.py', code='x = 1')
             symexec.method(me, 'reset', lambda *a, **k: None)
+            # the methods of the stdlib base class bdb.Bdb that touch the trace function (CPython's own definitions):
+            # set_quit() and set_continue() without breakpoints end with sys.settrace(None)
+            if sym.method(ci, 'set_quit') is None:
+                symexec.method(me, 'set_quit', lambda: (me.attrs.__setitem__('quitting', True),
+                                                        cell.__setitem__('trace', None))[0])
+            if sym.method(ci, 'set_continue') is None:
+                symexec.method(me, 'set_continue', lambda: cell.__setitem__('trace', None))
+            if sym.method(ci, 'set_trace') is None:
+                symexec.method(me, 'set_trace', lambda *a: cell.__setitem__('trace', me))
             sup = Obj('super')
             symexec.method(sup, '__init__', lambda *a, **k: None)
             fd = symexec.new_fd(sym, tmod, calls={
